@@ -11,7 +11,7 @@ META = {
                  "full() is the disjunction of size() >= max_block_items over exactly the three item containers; R12.4 "
                  "write_block(): write, then clear, then re-arm with the active parameters, no handler around the write; R12.5 "
                  "each storing path of each add_* inserts exactly once and never erases, and the buffered block is cleared only "
-                 "by write_block(); R12.6 the exporter's counters delegate to the containers' size(). R12.7: the key obligations of C11 for AddressEventCount (the aggregation map is keyed by it). R12.8: a data member that is always assigned the same function of other members (cdnsverif/derived.py) is recomputed by every member function that changes those members; the lazy form under a validity flag / stored key is refreshed before every read and invalidated after every change (a cached item limit).",
+                 "by write_block(); R12.6 the exporter's counters delegate to the containers' size(). R12.7: the key obligations of C11 for AddressEventCount (the aggregation map is keyed by it). R12.8: a data member that is always assigned the same function of other members (cdnsverif/derived.py) is recomputed by every member function that changes those members; the lazy form under a validity flag / stored key is refreshed before every read and invalidated after every change (a cached item limit). R12.9 = R01.11: every CdnsBlock member that a method called from buffer_* can change is re-initialised by clear(), so the block re-armed after a flush starts from nothing.",
     "explanation": "Structural rules over seven small functions; the state-machine claims of C12 (order across flushes, max 0 acts "
                    "like 1, counters after parameter switches) follow from R12.1-R12.6 by a short pen-and-paper induction recorded "
                    "in DESIGN.md, not by a mechanised proof.",
@@ -205,6 +205,10 @@ def check(run):
     run.floor("R12.3", 1, "full()")
 
     check_write_clear_rearm(run, "R12.4")
+    # the block the exporter re-arms after a flush starts from nothing: whatever a buffered record leaves in the block (a
+    # look-aside of the last address, a remembered index) is gone with the records it describes (R01.11 imported)
+    from . import C01 as _C01
+    _C01.check_block_state_cleared(run, "R12.9")
     wb = facts.fn(EXP + "::write_block", sig=[], rule="R12.5")
 
     # R12.5 who may clear the buffered block
